@@ -920,7 +920,7 @@ META = {
              'handle is open and otherwise closes the others and retries; prune/close close before dropping entries; the '
              'single-cell FASTQ writer uses the gzip method. Does NOT decide the bytes of the produced files nor real OS '
              'behaviour under EMFILE.'),
-    'technique': 'static analysis: dict-key typestate along exception-aware CFG paths with computed method effect summaries, path checks of open modes, comparison-predicate enumeration of the raise guard',
+    'technique': 'static analysis: dict-key typestate along exception-aware CFG paths with computed method effect summaries, path checks of open modes, comparison-predicate enumeration of the raise guard; model-based abstract execution of the HandleLimiter class against a file-system model (write sequences over three paths, handle limits 0..2, prune intervals 0..3, open-handle budgets, one-off open failures, stale files, two limiters in a row)',
     'design_ref': 'DESIGN.md section 5, C19',
 }
 
